@@ -189,6 +189,15 @@ def native_C04(tier, seed):
                         bad(f"C04-ljneg-{cls.__name__}-{nsname}-{dtn}-{scale}", "lj_inv_neg", f"lj_inv != -lj_fwd: {np.abs(N(lj) + N(ljb)).max():.3g}", inp)
                     if not np.array_equal(N(fit), N(y)):
                         bad(f"C04-fit-{cls.__name__}-{nsname}-{dtn}-{scale}", "fit==forward", "fit(x) != forward(x)[0]", inp)
+                    if dtn == "float64" and nsname != "numpy":
+                        # a float64 transform keeps float64 accuracy in every namespace: its log-Jacobian agrees with the NumPy float64 instance
+                        import array_api_compat.numpy as _xpn
+                        tn = cls(lower=lo, upper=hi, xp=_xpn, eps=1e-6, dtype=np.float64)
+                        ljn = N(tn.forward(X)[1])
+                        d = np.abs(N(lj) - ljn).max()
+                        if d > 1e-11 * max(1.0, np.abs(ljn).max()):
+                            bad(f"C04-lj-float64-{cls.__name__}-{nsname}-{scale}", "C04:C15:the constant log-Jacobian is broadcast over an array of the data's floating-point width",
+                                f"float64 {cls.__name__} under {nsname}: log-Jacobian differs from the NumPy float64 value by {d:.3g} (float32 rounding of the constant part)", inp)
                     if dtn == "float64" and nsname == "numpy":
                         t64 = cls(lower=lo, upper=hi, xp=xp, eps=1e-12, dtype=dt)
                         for i in range(4):
